@@ -31,6 +31,8 @@ var c10Plan = []planEntry{
 	{spaces.XRefTail, 4, 5},
 	{spaces.XInfo, 4, 5},
 	{spaces.XRefHead, 5, 6},
+	{spaces.XMl, 5, 6},
+	{spaces.XAuto, 4, 5},
 }
 
 type filterPred struct {
@@ -110,7 +112,6 @@ func init() {
 	})
 }
 
-func unLT(s string) string { return strings.ReplaceAll(s, "&lt;", "<") }
 
 func c10Driver(x *X, in []byte) {
 	blocks, refs := cm.Parse(clone(in))
@@ -141,13 +142,9 @@ func c10Driver(x *X, in []byte) {
 					x.Fail("render-error", cfg, in, "Render returned %v", err)
 					return
 				}
-				want := ref.Render(blocks, ref.RenderConfig{SoftBreak: sb, IgnoreRaw: ignore, Refs: refs})
+				want := ref.Render(blocks, ref.RenderConfig{SoftBreak: sb, IgnoreRaw: ignore, Refs: refs, Filter: fp.f})
 				x.Validated()
-				g, w := got, want
-				if fp.f != nil {
-					g, w = unLT(g), unLT(w)
-				}
-				if g != w {
+				if !ref.MatchFiltered(got, want) {
 					x.Fail("output-differs-from-tree-reading", cfg, in, "Render wrote %q; direct reading of the tree gives %q", got, want)
 					return
 				}
